@@ -140,6 +140,7 @@ func persistComponent(g *G, n int, opts map[string]string) *Out {
 	o := newOut("Corr.PersistCorr", "pcase")
 	for i := 0; i < n; i++ {
 		as := g.aspec(opts)
+		as.noLoops()
 		st := g.astate(as)
 		var msgs []interface{}
 		node := st.Node
